@@ -28,6 +28,11 @@ pub trait Hooks: Send + Sync {
     fn retry_sleep(&self, _name: &'static str) -> bool {
         false
     }
+    /// Fault injection: true makes the operation behind this point fail with an I/O error
+    /// instead of being performed.
+    fn fail(&self, _name: &'static str) -> bool {
+        false
+    }
 }
 
 static HOOKS: RwLock<Option<Arc<dyn Hooks>>> = RwLock::new(None);
@@ -76,4 +81,8 @@ pub fn ping(endpoint: &str) -> Option<bool> {
 
 pub fn retry_sleep(name: &'static str) -> bool {
     current().map(|h| h.retry_sleep(name)).unwrap_or(false)
+}
+
+pub fn fail(name: &'static str) -> bool {
+    current().map(|h| h.fail(name)).unwrap_or(false)
 }
